@@ -19,13 +19,13 @@ class Q:
     def __init__(s, name, harness, shim, defs=None, config='real', cxxdefs=(), unwind=8, unwindset=None,
                  models=('core', 'libc'), stubs=(), allow_aborts=(), ub=False, timeout=None, mem_gb=12,
                  tiers=('quick', 'thorough'), cbmc_extra=(), roots=None, noinline=False, bound=None,
-                 object_bits=None, replay=True, note=None, loops=(), hunwind=None, heap_cap=64):
+                 object_bits=None, replay=True, note=None, loops=(), hunwind=None, heap_cap=64, solver=None):
         s.name = name; s.harness = harness; s.shim = shim; s.defs = dict(defs or {}); s.config = config
         s.cxxdefs = tuple(cxxdefs); s.unwind = unwind; s.unwindset = dict(unwindset or {})
         s.models = tuple(models); s.stubs = tuple(stubs); s.allow_aborts = tuple(allow_aborts); s.ub = ub
         s.timeout = timeout; s.mem_gb = mem_gb; s.tiers = tuple(tiers); s.cbmc_extra = tuple(cbmc_extra)
         s.roots = roots; s.noinline = noinline; s.bound = bound or {}; s.object_bits = object_bits
-        s.replay = replay; s.note = note; s.heap_cap = heap_cap   # capacity in bytes of every modelled heap block (vp_rt.h)
+        s.replay = replay; s.note = note; s.solver = solver; s.heap_cap = heap_cap   # capacity in bytes of every modelled heap block (vp_rt.h)
         s.hunwind = hunwind      # bound for loops of the harness and of the environment models (default: unwind)
         s.loops = tuple(loops)   # [(regex on the loop name 'function.N', bound)]: per-loop bounds; everything else gets `unwind`
 
@@ -167,6 +167,8 @@ def cbmc_cmd(ctx, q, prep):
     if q.unwindset and not (q.loops or q.hunwind):
         cmd += ['--unwindset', ','.join('%s:%d' % kv for kv in q.unwindset.items())]
     if q.object_bits: cmd += ['--object-bits', str(q.object_bits)]
+    if q.solver == 'cadical': cmd += ['--sat-solver', 'cadical']
+    elif q.solver == 'kissat': cmd += ['--external-sat-solver', 'kissat']
     cmd += list(q.cbmc_extra)
     return cmd
 
@@ -434,7 +436,7 @@ def write_evidence(pid, tier, seed, mod, queries, results, violations, known_hit
         if r['verdict'] in ('holds', 'cex') and r.get('witnesses_reached'): nontriv += 1
         steps += c.get('steps') or 0; clauses += c.get('clauses') or 0; vars_ += c.get('vars') or 0; solver_s += c.get('solver_s') or 0
         qs.append({'query': q.name, 'harness': q.harness, 'shim': q.shim, 'config': q.config, 'defs': q.defs, 'unwind': q.unwind, 'heap_block_capacity_bytes': q.heap_cap,
-                   'verdict': r['verdict'], 'reason': r.get('reason') or None, 'assertions_checked': r.get('n_props'), 'assertions_proved': n_ok,
+                   'sat_back_end': q.solver or 'minisat (cbmc default)', 'verdict': r['verdict'], 'reason': r.get('reason') or None, 'assertions_checked': r.get('n_props'), 'assertions_proved': n_ok,
                    'witnesses': r.get('witnesses'), 'witnesses_reached': r.get('witnesses_reached'), 'wall_s': round(r.get('wall', 0), 2),
                    'solver_s': round(c.get('solver_s') or 0, 2), 'symex_steps': c.get('steps'), 'sat_variables': c.get('vars'), 'sat_clauses': c.get('clauses'),
                    'roots': (r.get('prep') or {}).get('roots'), 'bound': q.bound, 'witness_replay': r.get('witness_replay'),
